@@ -75,7 +75,8 @@ fn fit_suite(run: &Run, x: &[f64], y: &[f64], d: usize, des: &Design, truth: Opt
     let xpow = x.iter().fold(0.0f64, |a, b| a.max(b.abs())).max(1.0).powi(d as i32);
     let k = (d + 1) as f64;
     // the normal-equation method is granted its own conditioning, nothing more
-    let tol = 64.0 * k * k * U * des.kappa * (des.gnorm * cn + n as f64 * xpow * yn) + 1e-300;
+    // 64k² for the solve and the products, 2n for accumulating XᵀX and Xᵀy over n rows (γ_n)
+    let tol = (64.0 * k * k + 2.0 * n as f64) * U * des.kappa * (des.gnorm * cn + n as f64 * xpow * yn) + 1e-300;
     let g = gradient(x, y, &c);
     let worst = g.iter().fold(0.0f64, |a, b| a.max(b.abs()));
     if !(worst <= tol) {
@@ -87,7 +88,7 @@ fn fit_suite(run: &Run, x: &[f64], y: &[f64], d: usize, des: &Design, truth: Opt
     }
     if let Some(t) = truth {
         let tn = t.iter().fold(0.0f64, |a, b| a.max(b.abs())).max(1e-300);
-        let tolc = 64.0 * k * k * U * des.kappa * tn * k + 1e-300;
+        let tolc = (64.0 * k * k + 2.0 * n as f64) * U * des.kappa * tn * k + 1e-300 * tn;
         for i in 0..=d {
             if !((c[i] - t[i]).abs() <= tolc) {
                 run.violate("fit/polynomial-data-not-reproduced", || format!("{}: coef = {:?}, generating polynomial {:?} (cond {:e})", desc(), c, t, des.kappa));
@@ -110,14 +111,14 @@ fn abscissae(run: &Run) -> Vec<(String, Vec<f64>)> {
     v.push(("clustered".into(), vec![-2.0, -1.9375, -1.875, -1.75, 0.0, 0.0625, 1.5, 1.5625, 1.625, 2.0]));
     v.push(("one-sided".into(), (0..12).map(|i| 0.5 + 0.125 * i as f64).collect()));
     let big = run.tier.pick(200usize, 2000usize);
-    for m in [40usize, big] {
+    for m in [40usize, big, 1000, 1024, 1025, 1500, 2000, 2049] {
         v.push((format!("uniform{}", m), (0..m).map(|i| ((-2.0 + 4.0 * i as f64 / (m - 1) as f64) * 256.0).round() / 256.0).collect()));
     }
     v
 }
 
 pub fn run(run: &Run) {
-    run.rule("degrees 0..=6 × {integer, half, quarter grids; Chebyshev points (5..33 nodes) rounded to 2^-10; clustered; one-sided; uniform 40 and 200 (2000 thorough) points} × every response over {-1,0,1}^n for the point sets with n ≤ 8 (all sub-selections of the integer/half grids) and polynomial + fixed noise patterns at scales {0,1e-3,1,1e3}; predict on every coefficient vector over {-2..2}^(d+1), d ≤ 3; non-trivial = degree ≥ 1");
+    run.rule("degrees 0..=6 × {integer, half, quarter grids; Chebyshev points (5..33 nodes) rounded to 2^-10; clustered; one-sided; uniform 40, 200, 1000, 1024, 1025, 1500, 2000, 2049 points} × every response over {-1,0,1}^n for the point sets with n ≤ 8 (all sub-selections of the integer/half grids) and polynomial + fixed noise patterns at noise scales {0,1e-3,1,1e3} and whole-response scales {1e-19,1e-16,1e-6,1,1e12}; predict on every coefficient vector over {-2..2}^(d+1), d ≤ 3; non-trivial = degree ≥ 1");
     let sets = abscissae(run);
     // 1. every response over {-1,0,1}^n on small abscissa sets
     let small_sets: Vec<Vec<f64>> = vec![
@@ -179,6 +180,14 @@ pub fn run(run: &Run) {
                     .collect();
                 fit_suite(run, x, &y, d, &des, if scale == 0.0 { Some(&truth) } else { None }, name);
                 run.nontrivial(1);
+                // least squares is homogeneous in y: the same data at microscopic and huge response scales
+                if variant == 0 && (scale == 0.0 || scale == 1.0) {
+                    for ys in [1e-19, 1e-16, 1e-6, 1e12] {
+                        let y2: Vec<f64> = y.iter().map(|v| v * ys).collect();
+                        let t2: Vec<f64> = truth.iter().map(|v| v * ys).collect();
+                        fit_suite(run, x, &y2, d, &des, if scale == 0.0 { Some(&t2) } else { None }, name);
+                    }
+                }
             }
         }
         // exact-integer case: interpolation through d+1 points
@@ -218,6 +227,6 @@ pub fn run(run: &Run) {
     run.require_regime("interpolation");
     run.require_regime("overdetermined");
     run.bound("abscissa families", format!("{} families, up to {} points", sets.len(), run.tier.pick(200, 2000)));
-    run.assume("first-order condition |V^T(y−Vc)|∞ ≤ 64(d+1)²u·cond(V^T V)·(‖V^T V‖‖c‖ + n·max|x|^d·‖y‖): the normal-equation method is granted its own conditioning; designs with cond(V^T V) > 1e9 are skipped");
+    run.assume("first-order condition |V^T(y−Vc)|∞ ≤ (64(d+1)²+2n)u·cond(V^T V)·(‖V^T V‖‖c‖ + n·max|x|^d·‖y‖): the normal-equation method is granted its own conditioning; designs with cond(V^T V) > 1e9 are skipped");
     run.assume("abscissae are dyadic so that the Gram matrix and the gradient are evaluated essentially exactly in double-double");
 }
